@@ -14,7 +14,7 @@ from ..oracle import equiv, reflex, refgram
 LEVEL = "exploration"
 BOUND = {"quick": 5, "thorough": 7}
 LEXEMES = ["2", "10", "0.5", ".5", "1.", "1.2.3", ".", "x", "xy", "sgn", "sgnx", "sg", "+", "-", "–", "*", "/", "^", "!",
-           "(", ")", "[", "]", "=", " ", "", "9007199254740993", "123456789012345678901234567890", "0.1"]
+           "(", ")", "[", "]", "=", " ", "", "9007199254740993", "123456789012345678901234567890", "0.1", "Sgn", "sgN"]
 LEX_BOUND = {"quick": 3, "thorough": 4}
 
 
